@@ -32,6 +32,9 @@ class Tape:
         self.kept = []
         self.eigh_calls = []     # (Gram matrix sent to the backend's eigh, eigenvalues, eigenvectors)
         self.sym_calls = []      # (matrix, n_eigenvecs, U, S, V) of every tensorly.tenalg.svd.symeig_svd call
+        self.qr_calls = []       # (query, Q) of every backend qr call
+        self.omegas = []         # every array drawn through rng.normal of a generator handed out by tl.check_random_state
+        self.rand_calls = []     # (matrix, n_eigenvecs, U, S, V, index of the first svd call made inside) of every randomized_svd call
 
     def __enter__(self):
         from tensorly.backend.numpy_backend import NumpyBackend
@@ -73,6 +76,44 @@ class Tape:
             self.sym_calls.append((np.array(matrix, copy=True), n_eigenvecs, np.array(U, copy=True), np.array(S, copy=True), np.array(V, copy=True)))
             return U, S, V
         tsvd.symeig_svd = sym_wrapper
+        # svd="randomized_svd": QR and the Gaussian test matrix are the oracles of Model/SvdDecompRand.v
+        self._old_qr = NumpyBackend.__dict__["qr"]
+        inner_qr = np.linalg.qr
+
+        def qr_wrapper(a, *args, **kw):
+            Qm, Rm = inner_qr(a, *args, **kw)
+            self.qr_calls.append((np.array(a, copy=True), np.array(Qm, copy=True)))
+            return Qm, Rm
+        NumpyBackend.register_method("qr", qr_wrapper)
+        self._had_crs = "check_random_state" in NumpyBackend.__dict__
+        self._old_crs = NumpyBackend.__dict__.get("check_random_state")
+        base_crs = getattr(NumpyBackend, "check_random_state")
+        tape_self = self
+
+        class RngProxy:
+            def __init__(self, rng):
+                self._rng = rng
+
+            def normal(self, *a, **kw):
+                out = self._rng.normal(*a, **kw)
+                tape_self.omegas.append(np.array(out, copy=True))
+                return out
+
+            def __getattr__(self, name):
+                return getattr(self._rng, name)
+
+        def crs_wrapper(seed=None):
+            return seed if isinstance(seed, RngProxy) else RngProxy(base_crs(seed))
+        NumpyBackend.register_method("check_random_state", crs_wrapper)
+        self._old_rand = tsvd.randomized_svd
+        old_rand = self._old_rand
+
+        def rand_wrapper(matrix, n_eigenvecs=None, **kw):
+            first = len(self.calls)
+            U, S, V = old_rand(matrix, n_eigenvecs=n_eigenvecs, **kw)
+            self.rand_calls.append((np.array(matrix, copy=True), n_eigenvecs, np.array(U, copy=True), np.array(S, copy=True), np.array(V, copy=True), first))
+            return U, S, V
+        tsvd.randomized_svd = rand_wrapper
         return self
 
     def __exit__(self, *a):
@@ -80,31 +121,44 @@ class Tape:
         setattr(self._cls, "eigh", self._old_eigh)
         self._tsvd.truncated_svd = self._old_trunc
         self._tsvd.symeig_svd = self._old_sym
+        setattr(self._cls, "qr", self._old_qr)
+        if self._had_crs:
+            setattr(self._cls, "check_random_state", self._old_crs)
+        else:
+            delattr(self._cls, "check_random_state")
+        self._tsvd.randomized_svd = self._old_rand
         return False
+
+
+def num(a):
+    """numeric array for the predicates: float64, or complex128 when the data are complex (tensor_train / tensor_ring / tucker accept
+    complex tensors; the property's statements -- exactness, singular-value bounds -- read the same with |.| the modulus)"""
+    a = np.asarray(a)
+    return a.astype(np.complex128) if np.iscomplexobj(a) else a.astype(float)
 
 
 # ----------------------------------------------------------------------------- independent reconstructions (textbook formulas)
 def tt_full(factors):
     """X[i0..] = G0[:, i0, :] G1[:, i1, :] ...  (boundary ranks 1)"""
-    res = np.asarray(factors[0], dtype=float)
+    res = num(factors[0])
     for f in factors[1:]:
-        res = np.tensordot(res, np.asarray(f, dtype=float), axes=([res.ndim - 1], [0]))
+        res = np.tensordot(res, num(f), axes=([res.ndim - 1], [0]))
     if res.shape[0] != 1 or res.shape[-1] != 1:
         raise ValueError("boundary ranks are not 1")
     return res.reshape(res.shape[1:-1])
 
 
 def tr_full(factors):
-    res = np.asarray(factors[0], dtype=float)
+    res = num(factors[0])
     for f in factors[1:]:
-        res = np.tensordot(res, np.asarray(f, dtype=float), axes=([res.ndim - 1], [0]))
+        res = np.tensordot(res, num(f), axes=([res.ndim - 1], [0]))
     return np.trace(res, axis1=0, axis2=res.ndim - 1)
 
 
 def ttm_full(factors):
     """factors (r, in_k, out_k, r') -> tensor of shape in_0.. x out_0.."""
     d = len(factors)
-    merged = [np.asarray(f, dtype=float).reshape(f.shape[0], f.shape[1] * f.shape[2], f.shape[3]) for f in factors]
+    merged = [num(f).reshape(f.shape[0], f.shape[1] * f.shape[2], f.shape[3]) for f in factors]
     T = tt_full(merged)
     ins = [f.shape[1] for f in factors]; outs = [f.shape[2] for f in factors]
     T = T.reshape([x for p in zip(ins, outs) for x in p])
@@ -113,16 +167,16 @@ def ttm_full(factors):
 
 
 def tucker_full(core, factors):
-    res = np.asarray(core, dtype=float)
+    res = num(core)
     for k, U in enumerate(factors):
-        res = np.moveaxis(np.tensordot(np.asarray(U, dtype=float), res, axes=([1], [k])), 0, k)
+        res = np.moveaxis(np.tensordot(num(U), res, axes=([1], [k])), 0, k)
     return res
 
 
 def sv(M):
     if M.size == 0:
         return np.zeros(0)
-    return _np_svd(np.asarray(M, dtype=float), compute_uv=False)
+    return _np_svd(num(M), compute_uv=False)
 
 
 def tail(s, r):
@@ -136,7 +190,7 @@ def num_rank(s):
 
 
 def fro(a):
-    return float(np.sqrt(np.sum(np.asarray(a, dtype=float) ** 2)))
+    return float(np.sqrt(np.sum(np.abs(num(a)) ** 2)))
 
 
 # ----------------------------------------------------------------------------- the property predicates
@@ -161,7 +215,7 @@ def pred_tt(X, rank, factors, what="tensor_train", rel=None, ub_ok=True):
             return f"{what}: ranks of consecutive factors do not match: {shp}"
         if shp[k][2] > req[k + 1]:
             return f"{what}: returned rank {shp[k][2]} exceeds the requested rank {req[k + 1]} at bond {k + 1}"
-    Xf = np.asarray(X, dtype=float)
+    Xf = num(X)
     err = fro(Xf - tt_full(factors))
     nx = fro(Xf)
     tails = [tail(sv(Xf.reshape(int(np.prod(X.shape[:k])), -1)), req[k]) for k in range(1, n)]
@@ -184,7 +238,7 @@ def pred_tt_identity(X, factors, calls, what="tensor_train"):
     n = len(factors)
     if len(calls) != n - 1:
         return f"{what}: {len(calls)} SVD calls for {n} factors (expected {n - 1})"
-    Xf = np.asarray(X, dtype=float)
+    Xf = num(X)
     err2 = fro(Xf - tt_full(factors)) ** 2
     disc = 0.0
     for k, (M, U, S, V) in enumerate(calls):
@@ -290,15 +344,15 @@ def pred_ttm(X, rank, factors, rel=None, ub_ok=True):
     if full.shape != X.shape:
         return f"tensor_train_matrix: reconstruction has shape {full.shape}"
     if d == 1:
-        err = fro(np.asarray(X, dtype=float) - full)
+        err = fro(num(X) - full)
         return None if err <= REL * fro(X) else f"tensor_train_matrix: single factor is not the matrix (error {err:.3e})"
     merged = [np.asarray(f).reshape(f.shape[0], f.shape[1] * f.shape[2], f.shape[3]) for f in factors]
     # the error of the TT-matrix equals the error of the TT of the interleaved tensor (a permutation of entries)
     msg = pred_tt(interleave(np.asarray(X)), rank, merged, "tensor_train_matrix", rel=rel, ub_ok=ub_ok)
     if msg:
         return msg
-    err_direct = fro(np.asarray(X, dtype=float) - full)
-    err_inter = fro(interleave(np.asarray(X, dtype=float)) - tt_full(merged))
+    err_direct = fro(num(X) - full)
+    err_inter = fro(interleave(num(X)) - tt_full(merged))
     if abs(err_direct - err_inter) > REL * fro(X) + 1e-300:
         return "tensor_train_matrix: factors are not the split of the TT factors of the interleaved tensor"
     return None
@@ -316,7 +370,7 @@ def pred_tucker(X, rank, core, factors, rel=None, ub_ok=True):
             return f"tucker: factor {k} of shape {U.shape} for mode size {X.shape[k]} and core {core.shape}"
         if core.shape[k] > req[k]:
             return f"tucker: core size {core.shape[k]} exceeds the requested rank {req[k]} on mode {k}"
-    Xf = np.asarray(X, dtype=float)
+    Xf = num(X)
     err = fro(Xf - tucker_full(core, factors)); nx = fro(Xf)
     tails = [tail(sv(np.moveaxis(Xf, k, 0).reshape(X.shape[k], -1)), req[k]) for k in range(n)]
     ub = math.sqrt(sum(t * t for t in tails)); lb = max(tails)
@@ -340,7 +394,7 @@ def pred_tucker_identity(X, core, factors):
     """transcription of C09_tucker_error_identity / C09_tucker_error_upper_R for the returned (core, factors):
     if the factors have orthonormal columns, squared error = sum_k |Z_k - P_k Z_k|^2 (Z_0 = X, Z_{k+1} = Z_k x_k U_k^T)
     and <= sum_k |X - P_k X|^2."""
-    Xf = np.asarray(X, dtype=float)
+    Xf = num(X)
     Us = [np.asarray(U, dtype=float) for U in factors]
     for U in Us:
         if U.shape[1] and np.max(np.abs(U.T @ U - np.eye(U.shape[1]))) > 1e-8:
@@ -374,7 +428,7 @@ def pred_tr(X, rank, mode, factors, sufficient, rel=None):
             return f"tensor_ring: ranks of consecutive factors do not match: {shp}"
         if shp[k][0] > req[k]:
             return f"tensor_ring: returned rank {shp[k][0]} exceeds the requested rank {req[k]} at bond {k} (start mode {mode})"
-    Xf = np.asarray(X, dtype=float)
+    Xf = num(X)
     err = fro(Xf - tr_full(factors)); nx = fro(Xf)
     if not np.isfinite(err):
         return "tensor_ring: reconstruction is not finite"
@@ -396,6 +450,7 @@ def pred_tr(X, rank, mode, factors, sufficient, rel=None):
 LAST_KEPT = []    # truncation ranks of the SVD calls of the last run_impl (same order as the tape)
 LAST_EIGH = []    # eigh calls of the last run_impl
 LAST_SYM = []     # symeig_svd calls of the last run_impl
+LAST_RAND = [[], [], []]   # randomized_svd calls, qr calls, drawn test matrices of the last run_impl
 
 
 def sign_ambiguous(calls, kept):
@@ -451,6 +506,7 @@ def run_impl(kind, X, rank, extra, via_class=False):
     LAST_KEPT[:] = list(tp.kept)
     LAST_EIGH[:] = list(tp.eigh_calls)
     LAST_SYM[:] = list(tp.sym_calls)
+    LAST_RAND[:] = [list(tp.rand_calls), list(tp.qr_calls), list(tp.omegas)]
     return st, v, tp.calls
 
 
@@ -461,7 +517,7 @@ def predicate(kind, X, rank, extra, st, v, info, calls=None):
             return f"{kind}: raised on a valid request: {v}"
         return None
     method = extra.get("svd", "truncated_svd")
-    if method != "truncated_svd":
+    if method != "truncated_svd" or np.iscomplexobj(X):
         return predicate_method(kind, X, rank, extra, v, info, method)
     try:
         if kind == "tt":
@@ -481,7 +537,7 @@ def predicate(kind, X, rank, extra, st, v, info, calls=None):
             msg = pred_tr(X, rank, extra.get("mode", 0), v, info.get("sufficient", False))
             if msg is None and calls is not None and len(LAST_KEPT) == len(calls) and all(k is not None for k in LAST_KEPT):
                 # transcription of C09_tensor_ring_error_sigma_R: squared error = discarded squared singular values, call by call
-                Xf = np.asarray(X, dtype=float)
+                Xf = num(X)
                 err2 = fro(Xf - tr_full(v)) ** 2
                 disc = sum(float(np.sum(np.asarray(S, dtype=float)[int(k):] ** 2)) for (M, U, S, V), k in zip(calls, LAST_KEPT))
                 nx2 = fro(Xf) ** 2
@@ -546,8 +602,10 @@ def predicate_method(kind, X, rank, extra, v, info, method):
     rel = REL_BY_METHOD[method]
     try:
         arrs = ([v[0]] + list(v[1])) if kind == "tucker" else list(v)
-        if not all(np.all(np.isfinite(np.asarray(a, dtype=float))) for a in arrs):
+        if not all(np.all(np.isfinite(np.asarray(a))) for a in arrs):
             return f"{kind} (svd={method}): non-finite factor"
+        if np.iscomplexobj(X) and method == "symeig_svd":
+            rel = 1e-6
         ub_ok = method != "randomized_svd" or rand_exact(kind, X, rank, extra, v)
         if kind == "tt":
             msg = pred_tt(X, rank, v, rel=rel, ub_ok=ub_ok)
@@ -564,7 +622,7 @@ def predicate_method(kind, X, rank, extra, v, info, method):
 
 def true_ranks(X):
     """numerical ranks of the sequential unfoldings (TT) and of the mode unfoldings (Tucker) of X"""
-    Xf = np.asarray(X, dtype=float)
+    Xf = num(X)
     n = Xf.ndim
     seq = [num_rank(sv(Xf.reshape(int(np.prod(Xf.shape[:k])), -1))) for k in range(1, n)]
     modes = [num_rank(sv(np.moveaxis(Xf, k, 0).reshape(Xf.shape[k], -1))) for k in range(n)]
@@ -575,7 +633,7 @@ def gen_method_cases(tier, rng, nrng):
     """all svd= methods x (low-rank / rank-deficient / generic inputs) x (over-requested, exactly sufficient, truncating ranks)
     x the four decompositions.  Low-rank input with over-requested ranks makes every method keep singular triplets of the
     null space of a rank-deficient working unfolding -- the regime in which a Gram-matrix based SVD divides by (clipped) zeros."""
-    N = 132 if tier == "quick" else 1500
+    N = 120 if tier == "quick" else 1500
     low = ["lowtt", "lowml", "intlow", "negdiag", "negperm", "deficient", "lowtt", "lowml", "sparseint", "generic", "integer"]
     for i in range(N):
         method = METHODS[1 + (i % 2)] if i % 6 else "truncated_svd"
@@ -587,6 +645,10 @@ def gen_method_cases(tier, rng, nrng):
         X = make_tensor(cls, shape, nrng, rng)
         if X.dtype.kind == "f":
             X = X * rng.choice([1.0, 1.0, 4.0, 0.25])
+            if rng.random() < 0.25:
+                # complex data (same value class for the imaginary part): the Gram matrix of symeig_svd must be Hermitian and the
+                # phase correction of svd_flip must leave U diag(S) V unchanged (fixes d995974, ca31a67)
+                X = X + 1j * make_tensor(cls, shape, nrng, rng)
         style = ["over", "over", "true", "trunc"][rng.randrange(4)]
         extra = {"svd": method}
         info = {"cls": cls, "style": style, "valid": True}
@@ -869,10 +931,10 @@ def gen_corr_cases(tier, rng, nrng):
             yield kind, X, rank, {"n_iter_max": it, "tol": 0, "init": "svd"}, {"cls": cls, "valid": True}
 
 
-def gen_sym_corr_cases(tier, rng, nrng):
+def gen_sym_corr_cases(tier, rng, nrng, method="symeig_svd"):
     """small cases for the model <-> implementation comparison of svd="symeig_svd" (Model/SvdDecompSymeig.v inside the generic model)"""
     shapes = [s_ for s_ in small_shapes(tier) if int(np.prod(s_)) <= 24]
-    N = 44 if tier == "quick" else 320
+    N = (32 if tier == "quick" else 320) if method == "symeig_svd" else (14 if tier == "quick" else 200)
     cl = ["generic", "integer", "generic", "sparseint", "lowtt", "generic", "intlow", "deficient", "lowml", "negperm"]
     for i in range(N):
         shape = shapes[rng.randrange(len(shapes))]
@@ -886,7 +948,7 @@ def gen_sym_corr_cases(tier, rng, nrng):
         kind = ["tt", "tucker", "tr", "tt", "ttm", "tucker"][(i // 2) % 6]
         if kind == "ttm" and order % 2:
             kind = "tt"
-        extra = {"svd": "symeig_svd"}
+        extra = {"svd": method}
         if kind in ("tt", "ttm"):
             nn = order if kind == "tt" else order // 2
             if rng.random() < 0.1:
@@ -998,6 +1060,8 @@ def _gm(node, env):
         return f"(matmul Op {_gm(node.args[0], env)} {_gm(node.args[1], env)})"
     if _is_tl(node, "transpose") and len(node.args) == 1 and not node.keywords:
         return f"(mtrans Op {_gm(node.args[0], env)})"
+    if _is_tl(node, "conj") and len(node.args) == 1 and not node.keywords:
+        return _gm(node.args[0], env)        # the model is over real carriers: complex conjugation is the identity there
     if isinstance(node, ast.BinOp) and isinstance(node.op, ast.Div) and _is_tl(node.right, "reshape") \
             and ast.unparse(node.right.args[1]).replace(" ", "") == "(1,-1)":
         return f"(div_cols Op {_gm(node.left, env)} {_gm(node.right.args[0], env)})"
@@ -1028,6 +1092,14 @@ def symeig_ast_goals():
         raise Untranslatable("the dim_1 / dim_2 branch of symeig_svd")
     iff = iff[0]
     cond = _ga(iff.test, {"dim_1": "(nrows M)", "dim_2": "(ncols M)"})
+    # simple matrix definitions made before the branch (e.g. matrix_h = tl.conj(tl.transpose(matrix)))
+    prelude = {"matrix": "M"}
+    for st in fn.body[:fn.body.index(iff)]:
+        if isinstance(st, ast.Assign) and len(st.targets) == 1 and isinstance(st.targets[0], ast.Name):
+            try:
+                prelude[st.targets[0].id] = _gm(st.value, prelude)
+            except Untranslatable:
+                pass
 
     def branch(stmts):
         """(Gram expression, clip a_min expression, {U, S, V} environment after the branch) of one branch"""
@@ -1035,8 +1107,9 @@ def symeig_ast_goals():
         if len(eig) != 1 or not isinstance(eig[0].targets[0], ast.Tuple) or len(eig[0].targets[0].elts) != 2:
             raise Untranslatable("eigh statement")
         sname, wname = [e.id for e in eig[0].targets[0].elts]
-        gram = _gm(eig[0].value.args[0], {"matrix": "M"})
-        env = {"matrix": "M", wname: "W", sname: "s"}
+        gram = _gm(eig[0].value.args[0], dict(prelude))
+        env = dict(prelude)
+        env.update({wname: "W", sname: "s"})
         clip_arg = None
         for st in stmts:
             if st is eig[0] or not isinstance(st, ast.Assign) or len(st.targets) != 1 or not isinstance(st.targets[0], ast.Name):
@@ -1055,7 +1128,7 @@ def symeig_ast_goals():
                 elif isinstance(amin, ast.Constant) and amin.value == 0:
                     clip_arg = "(f0 Op)"
                 else:
-                    raise Untranslatable(ast.unparse(amin))
+                    clip_arg = "other_level"      # any other clip level: the model clips at tl.eps -> the goal below cannot be proved
             else:
                 env[tgt] = _gm(st.value, env)
         if clip_arg is None or not {"U", "S", "V"} <= set(env):
@@ -1095,7 +1168,7 @@ def symeig_ast_goals():
     verdict = [
         ("symeig_gram_branch", f"forall (F : Type) (Op : fops F) (M : tensor F), gram_query Op M = if {cond} then {gA} else {gB}",
          "intros; unfold gram_query; " + robust),
-        ("symeig_clip_level", f"forall (F : Type) (Op : fops F) (eps x : F), clip_min Op {cA} x = clip_min Op eps x /\\ clip_min Op {cB} x = clip_min Op eps x",
+        ("symeig_clip_level", f"forall (F : Type) (Op : fops F) (eps other_level x : F), clip_min Op {cA} x = clip_min Op eps x /\\ clip_min Op {cB} x = clip_min Op eps x",
          "intros; split; reflexivity"),
         ("symeig_return_slices", "forall (F : Type) (Op : fops F) (d1 d2 ne : nat) (U : tensor F) (Sv : list F) (V : tensor F), "
          f"symeig_truncate Op d1 d2 ne (U, Sv, V) = (cols_firstn Op {bounds[0]} U, firstn {bounds[1]} Sv, rows_firstn Op {bounds[2]} V)",
@@ -1265,6 +1338,49 @@ def sym_tape_lit(eigh_calls):
     return "[" + ";\n   ".join(ents) + "]"
 
 
+QR_PER_CALL = 5     # first projection + 2 power iterations x 2 (n_iter = 2, the default the decompositions use)
+
+
+def rand_tape_lit(rand_calls, qr_calls, omegas, svd_calls):
+    """tape of a svd="randomized_svd" run (Corr/C09.v tape_rand): per randomized_svd call a group of 7 entries
+    (Omega, (_, [n_eigenvecs], _)), 5 x (QR query, (Q, _, _)), (reduced matrix, LAPACK answer); then the remaining svd calls
+    (the HOOI sweeps of tucker).  None when the recorded calls do not have that structure."""
+    n = len(rand_calls)
+    if len(qr_calls) != QR_PER_CALL * n or len(omegas) != n or len(svd_calls) < n:
+        return None
+    if [rc[5] for rc in rand_calls] != list(range(n)):      # the k-th svd call is the inner call of the k-th randomized_svd call
+        return None
+    dummy = "(mk [] [])"
+    ents = []
+    for k, (M, ne, U, S, V, first) in enumerate(rand_calls):
+        if ne is None:
+            return None
+        # the code brings the drawn matrix into the context (dtype) of the matrix it multiplies: for an integer-dtype input the
+        # Gaussian test matrix is truncated to integers.  The tape carries the matrix that was really multiplied: the candidate
+        # (as drawn / cast to the dtype of the input of randomized_svd) that reproduces the first QR query (the model checks
+        # that query again, exactly)
+        q0 = np.asarray(qr_calls[QR_PER_CALL * k][0], dtype=float)
+        om = None
+        for cand in (np.asarray(omegas[k]), np.asarray(omegas[k]).astype(np.asarray(M).dtype)):
+            for A_ in (np.asarray(M), np.asarray(M).T):
+                if A_.shape[1] == cand.shape[0] and (A_.shape[0], cand.shape[1]) == q0.shape \
+                        and np.allclose(A_.astype(float) @ cand.astype(float), q0, rtol=1e-10, atol=1e-12):
+                    om = cand.astype(float)
+                    break
+            if om is not None:
+                break
+        if om is None:
+            return None
+        ents.append(f"({qt(om)}, ({dummy}, {C.q_list([int(ne)])}, {dummy}))")
+        for (A, Qm) in qr_calls[QR_PER_CALL * k: QR_PER_CALL * (k + 1)]:
+            ents.append(f"({qt(np.asarray(A, dtype=float))}, ({qt(Qm)}, (@nil Q), {dummy}))")
+        (Mr, Ur, Sr, Vr) = svd_calls[k]
+        ents.append(f"({qt(Mr)}, ({qt(Ur)}, {C.q_list([x.item() for x in Sr])}, {qt(Vr)}))")
+    for (Mr, Ur, Sr, Vr) in svd_calls[n:]:
+        ents.append(f"({qt(Mr)}, ({qt(Ur)}, {C.q_list([x.item() for x in Sr])}, {qt(Vr)}))")
+    return "[" + ";\n   ".join(ents) + "]"
+
+
 def sym_ill_conditioned(sym_calls):
     """a symeig_svd call of the run kept a triplet of the numerical null space (S <= 1e-6 S_max, in particular the clipped
     sqrt(eps) ones): its derived column is rounding noise divided by a tiny number, so the factor comparison would compare
@@ -1279,6 +1395,8 @@ def sym_ill_conditioned(sym_calls):
 def kind_lit(kind, extra):
     if extra.get("svd") == "symeig_svd":
         return "(KSym " + kind_lit(kind, {k: v_ for k, v_ in extra.items() if k != "svd"}) + ")"
+    if extra.get("svd") == "randomized_svd":
+        return "(KRand " + kind_lit(kind, {k: v_ for k, v_ in extra.items() if k != "svd"}) + ")"
     if kind == "tt":
         return "KTT"
     if kind == "ttm":
@@ -1306,7 +1424,7 @@ def finite(st, v, calls):
         arrs += ([v[0]] + list(v[1])) if isinstance(v, tuple) else list(v)
     for c in calls:
         arrs += list(c)
-    return all(np.all(np.isfinite(np.asarray(a, dtype=float))) for a in arrs)
+    return all(np.all(np.isfinite(np.asarray(a))) for a in arrs)
 
 
 def describe(kind, X, rank, extra, info):
@@ -1347,11 +1465,21 @@ def run(chk):
     resid = []
     orth = []
     eigh_resid = []
-    for (kind, X, rank, extra, info) in load_corpus() + list(gen_corr_cases(tier, rng, nrng)) + list(gen_sym_corr_cases(tier, rng, nrng)):
+    for (kind, X, rank, extra, info) in load_corpus() + list(gen_corr_cases(tier, rng, nrng)) + list(gen_sym_corr_cases(tier, rng, nrng)) + list(gen_sym_corr_cases(tier, rng, nrng, "randomized_svd")):
         if X.size > 40:
             continue
         st, v, calls = run_impl(kind, X, rank, extra)
         sym = extra.get("svd") == "symeig_svd"
+        rnd = extra.get("svd") == "randomized_svd"
+        if rnd:
+            # the (M, U, S, V) of every randomized_svd call (U = Q U_t, already truncated) decide the sign-ambiguity test for those
+            # calls; the inner svd calls themselves are not sign-flipped
+            rand_calls, qr_calls, omegas = [list(x) for x in LAST_RAND]
+            svd_calls = list(calls)
+            nr = len(rand_calls)
+            calls = [(M_, U_, S_, V_) for (M_, n_, U_, S_, V_, f_) in rand_calls] + svd_calls[nr:]
+            kept_hooi = list(LAST_KEPT)[nr:] if len(LAST_KEPT) == len(svd_calls) else [None] * max(0, len(svd_calls) - nr)
+            LAST_KEPT[:] = [None] * nr + kept_hooi
         if sym:
             # the oracle of these runs is eigh; the (M, U, S, V) of every symeig_svd call stand in for the svd tape in the
             # sign-ambiguity test (U is already truncated to the kept columns)
@@ -1379,18 +1507,26 @@ def run(chk):
         if sym and (len(eigh_calls) != len(sym_calls) or sym_ill_conditioned(sym_calls) or (svd_calls and not (kind == "tucker" and len(sym_calls) == X.ndim))):
             chk.hist("corr_symeig_null_space_kept_predicates_only", kind)
             continue
+        if rnd:
+            the_tape = rand_tape_lit(rand_calls, qr_calls, omegas, svd_calls)
+            if the_tape is None or (len(svd_calls) > nr and not (kind == "tucker" and nr == X.ndim)):
+                chk.hist("corr_randomized_unexpected_call_structure_predicates_only", kind)
+                continue
         cid = len(cases)
-        the_tape = (f"({sym_tape_lit(eigh_calls)} ++\n   {tape_lit(svd_calls)})" if sym else tape_lit(calls))
+        if not rnd:
+            the_tape = (f"({sym_tape_lit(eigh_calls)} ++\n   {tape_lit(svd_calls)})" if sym else tape_lit(calls))
         cases.append(f"({cid}%nat, {kind_lit(kind, extra)}, {qt(X)}, {rank_lit(rank)},\n  {the_tape},\n  {outcome_lit(kind, st, v)})")
         if sym:
             chk.hist("corr_symeig", kind)
+        if rnd:
+            chk.hist("corr_randomized", kind)
         meta.append((kind, X, rank, extra, info, st))
         if sym:   # measured eigh contract: W orthogonal, G W = W diag(lambda)
             for (G_, lam_, W_) in eigh_calls:
                 G_ = np.asarray(G_, dtype=float)
                 eigh_resid.append(max(float(np.max(np.abs(W_ @ W_.T - np.eye(W_.shape[0])))),
                                       float(np.max(np.abs(G_ @ W_ - W_ * lam_))) / max(1.0, float(np.max(np.abs(G_))))))
-        for (M, U, S, V) in (svd_calls if sym else calls):   # measured oracle contract: LAPACK's answer reproduces its query, U / Vh are orthonormal
+        for (M, U, S, V) in (svd_calls if (sym or rnd) else calls):   # measured oracle contract: LAPACK's answer reproduces its query, U / Vh are orthonormal
             k = len(S)
             resid.append(float(np.max(np.abs((U[:, :k] * S) @ V[:k, :] - M))) / max(1.0, float(np.max(np.abs(M)))) if M.size else 0.0)
             if M.size:
@@ -1475,6 +1611,7 @@ def run(chk):
         msg = predicate(kind, X, rank, extra, st, v, info, calls)
         chk.count(key=("method", kind, X.shape, str(rank), tuple(sorted((k, str(v_)) for k, v_ in extra.items())), info["cls"]), nontrivial=X.size > 1)
         chk.hist("method_stream", f"{kind}/{extra['svd']}"); chk.hist("method_rank_style", info["style"]); chk.hist("method_class", info["cls"])
+        chk.hist("method_dtype", "complex" if np.iscomplexobj(X) else str(X.dtype))
         if msg:
             chk.finding(EP[kind], describe(kind, X, rank, extra, info), msg, "C09_svd_methods")
     if resid:
